@@ -15,6 +15,42 @@ from .report import Ctx
 PROPS = [f"C{n:02d}" for n in range(1, 20)]
 
 
+
+class _BudgetExceeded(AnalysisError):
+    pass
+
+
+class analysis_budget:
+    """Wall-clock guard around one analysis: a source on which the analyser does not finish is reported as an analysis error (never as a
+    verdict, never as a hang)."""
+
+    def __init__(self, seconds: int, what: str):
+        self.seconds, self.what = seconds, what
+
+    def __enter__(self):
+        import signal
+
+        self._sig = signal
+        self._old = None
+        if self.seconds > 0 and hasattr(signal, "SIGALRM"):
+            try:
+                def onalarm(signum, frame):
+                    signal.alarm(5)  # raised again should a handler on the way out swallow it
+                    raise _BudgetExceeded(f"analysis of {self.what} did not finish within {self.seconds}s")
+
+                self._old = signal.signal(signal.SIGALRM, onalarm)
+                signal.alarm(self.seconds)
+            except ValueError:  # not the main thread
+                self._old = None
+        return self
+
+    def __exit__(self, *exc):
+        if self._old is not None:
+            self._sig.alarm(0)
+            self._sig.signal(self._sig.SIGALRM, self._old)
+        return False
+
+
 def run_property(prop: str, tier: str, seed: int, root=None) -> int:
     from .engine import Engine
 
@@ -25,11 +61,13 @@ def run_property(prop: str, tier: str, seed: int, root=None) -> int:
         print(f"ANALYSIS-ERROR property={prop} check not built")
         return 2
     try:
-        eng = Engine(root)
-        hits = eng.g0()
-        for m, line, what in hits:
-            ctx.error(f"G0 unmodelled dynamic feature: {eng.repo.relpath(m)}:{line} {what}")
-        mod.run(eng, ctx)
+        budget = int(os.environ.get("VERIF_ANALYSIS_BUDGET", "900"))
+        with analysis_budget(budget, prop):
+            eng = Engine(root)
+            hits = eng.g0()
+            for m, line, what in hits:
+                ctx.error(f"G0 unmodelled dynamic feature: {eng.repo.relpath(m)}:{line} {what}")
+            mod.run(eng, ctx)
         if tier == "thorough" and hasattr(mod, "thorough"):
             mod.thorough(eng, ctx)
         if tier == "thorough":
